@@ -757,7 +757,13 @@ pub fn run(cfg: &RunCfg) {
   // the wide universe without the build-metadata twins: ranks are distinct
   let ux_wf_texts: Vec<&str> = UX.iter().cloned().filter(|t| !t.contains('+')).collect();
   let ux_wf = Universe::new(&ux_wf_texts, &RX);
-  run_cases(cfg, total, |seed, k| {
+  // graph level: registry (stage B2) worlds where the real builder selects versions (unification with
+  // versions already in the graph, yanked fallback, cached-manifest preference, restart on a stale document)
+  let nj = if tier == Tier::Quick { 2000 } else { 40000 };
+  run_cases(cfg, total + nj, |seed, k| {
+    if k >= total {
+      return crate::props::jsr::gen_case(seed, k - total, crate::props::jsr::Flavour::Versions);
+    }
     let mut rng = Rng::for_case(seed, k);
     let mut k = k;
     if k < p.n_exh {
